@@ -88,6 +88,22 @@ def results_of(res):
     return []
 
 
+def tiny(rng):
+    """a float polynomial (0-d or small array) some of whose coefficients are tiny but non-zero (2**-40)"""
+    from fractions import Fraction
+    from .core import coef_json
+    s = P(rng, kind="float", shape=gen.choice(rng, [(), (), (2,)]), nterms=int(rng.integers(1, 4)))
+    s["as"] = "poly"
+    for t in s["terms"]:
+        t[1] = [coef_json(Fraction(1, 2 ** 40)) if rng.random() < .5 else x for x in t[1]]
+    return s
+
+
+def _with_printoptions(f):
+    with numpy.printoptions(suppress=True, precision=4):
+        return f()
+
+
 def uses_all_names(s):
     """make sure every indeterminate occurs with a non-zero coefficient somewhere (positional arguments then mean the
     same under every retain_names setting)"""
@@ -152,7 +168,21 @@ def entries():
     for nm, f in (("equal", lambda a, b: a == b), ("not_equal", lambda a, b: a != b), ("greater", lambda a, b: a > b),
                   ("less_equal", lambda a, b: a <= b), ("maximum", numpoly.maximum), ("minimum", numpoly.minimum)):
         add(nm, lambda r: pair(r, nterms=int(r.integers(0, 4)), kind="int"), f, "order")
+    # operands whose order depends on which indeterminate takes precedence (q0**k against q1**k, same degree): only
+    # the sort_* options may matter for these, never a display option
+    for nm, f in (("greater(order-sensitive)", lambda a, b: a > b), ("maximum(order-sensitive)", numpoly.maximum),
+                  ("minimum(order-sensitive)", numpoly.minimum), ("amax(order-sensitive)", lambda a, b: numpoly.amax(numpoly.polynomial([a, b]))),
+                  ("sortable_proxy(order-sensitive)", lambda a, b: numpoly.sortable_proxy(numpoly.polynomial([a, b])))):
+        add(nm, lambda r: (lambda k, c, d: [
+            {"names": [0, 1], "shape": [], "dtype": "int64", "kind": "int", "as": "poly", "terms": [[[k, 0], [c]]]},
+            {"names": [0, 1], "shape": [], "dtype": "int64", "kind": "int", "as": "poly", "terms": [[[0, k], [d]]]}])(
+                int(r.integers(1, 4)), int(r.integers(1, 4)), int(r.integers(1, 4))), f, "order")
     # calculus / evaluation -----------------------------------------------------------------
+    # a derivative evaluated at non-integral points: rows that should have been dropped show up as inf * 0
+    add("derivative then call(float)", lambda r: [P(r, names=[0, 1], nterms=4, maxexp=3, kind="int"), int(r.integers(2)), gen.choice(r, [1.5, -2.5, 3.0])],
+        lambda a, j, x: (lambda g: g(**{n: x for n in g.names}))(numpoly.derivative(a, a.names[j])), "calculus")
+    add("gradient then call(float)", lambda r: [P(r, names=[0, 1], nterms=3, maxexp=3, kind="int", shape=()), gen.choice(r, [1.5, -2.5])],
+        lambda a, x: (lambda g: g(**{n: x for n in g.names}))(numpoly.gradient(a)), "calculus")
     add("derivative", lambda r: [P(r), 0], lambda a, j: numpoly.derivative(a, a.names[j]), "calculus")
     # several variables in succession: by position, by name, by indeterminate (made under the current options)
     add("derivative(positions)", lambda r: [uses_all_names(P(r, names=[0, 1], nterms=4)), int(r.integers(2)), int(r.integers(2))],
@@ -222,6 +252,11 @@ def entries():
     add("amax", lambda r: [P(r, kind="int", shape=(4,))], lambda a: numpoly.amax(a), "order")
     add("str", lambda r: [P(r)], lambda a: str(a), "query")
     add("repr", lambda r: [P(r)], lambda a: repr(a), "query")
+    # printing with suppression of small values (keyword and numpy print option), on 0-d and array polynomials that hold
+    # tiny coefficients: printing is a query, the printed polynomial must keep its coefficients
+    add("array_repr(suppress_small)", lambda r: [tiny(r)], lambda a: numpoly.array_repr(a, suppress_small=True), "query")
+    add("array_str(suppress_small, precision)", lambda r: [tiny(r)], lambda a: numpoly.array_str(a, precision=3, suppress_small=True), "query")
+    add("str under printoptions(suppress)", lambda r: [tiny(r)], lambda a: _with_printoptions(lambda: (str(a), repr(a))), "query")
     add("astype(float)", lambda r: [P(r, kind="int")], lambda a: a.astype(float), "construct")
     add("copyto", lambda r: same_pair(r), lambda a, b: (numpoly.copyto(_fresh_like(a, b), b), None)[1], "shape")
     # persistence -------------------------------------------------------------------------------
